@@ -16,6 +16,7 @@ import (
 	"strings"
 	"sync"
 	"testing"
+	"time"
 
 	"pgregory.net/rapid"
 )
@@ -277,6 +278,31 @@ func (c *Check[C]) Fail(v C, err error) string {
 	}
 	col.mu.Unlock()
 	return path
+}
+
+// Abort records a violation that cannot be unwound (a call that does not
+// return), writes the evidence and ends the process with the violation exit code.
+func (c *Check[C]) Abort(v C, err error) {
+	p := c.Fail(v, err)
+	fmt.Printf("ABORT: %s violated (replay %s): %v\n", c.Name, p, err)
+	flush()
+	os.Exit(1)
+}
+
+// WithDeadline runs f and reports whether it returned within d.  When it does
+// not, the goroutine is left behind (it cannot be stopped): callers must Abort.
+func WithDeadline(d time.Duration, f func()) bool {
+	done := make(chan struct{})
+	go func() {
+		defer close(done)
+		f()
+	}()
+	select {
+	case <-done:
+		return true
+	case <-time.After(d):
+		return false
+	}
 }
 
 // Rapid runs gen+oracle under rapid for n cases.
